@@ -302,14 +302,15 @@ theorem cex_stale_eof :
     s.stoppedByEof = true ∧ s.eofSeen = false := by decide
 
 /-- `mergeDescs` as the code does it now: whether it stats again is regenerated -/
-def codeMerge := mergeDescs Generated.C17.mergeRestatsAfterOffset
+def codeMerge (old : List Desc) (new : List (Desc × Option Nat)) : List (Desc × Bool) :=
+  mergeDescs Generated.C17.mergeRestatsAfterOffset old new Generated.C17.mergeKeepsMissedOneScan
 def codeMergeOne := mergeOne Generated.C17.mergeRestatsAfterOffset
 
 /-- **`rotation_new_id_from_zero`** a file whose id is not known is taken with the scanned descriptor (offset 0). -/
 theorem rotation_new_id_from_zero (old : List Desc) (new : List (Desc × Option Nat)) (nd : Desc) (rs : Option Nat)
     (h : (nd, rs) ∈ new) (hid : lookup old nd.id = none) : (nd, false) ∈ codeMerge old new := by
-  simp only [codeMerge, mergeDescs, List.mem_map]
-  exact ⟨(nd, rs), h, by simp [hid, mergeOne]⟩
+  simp only [codeMerge, mergeDescs, List.mem_append, List.mem_map]
+  exact Or.inl ⟨(nd, rs), h, by simp [hid, mergeOne]⟩
 
 /-- **`same_id_grown_keeps_offset`** (the code as it is now, fix f247e22). A file that only grows — the scanned size
 is at least the size seen last time, a later stat gives at least the scanned size — and whose worker offset, as
@@ -364,27 +365,68 @@ theorem truncated_file_read_from_beginning (od nd : Desc) (restat : Option Nat) 
   simp only [] at this
   exact ⟨this.2.1, by rw [this.2.2]; simp⟩
 
-/-- **`cex_missing_from_one_scan_restarts`** (finding F61) `mergeDescs` builds its result from the ids of the new scan
-only. A file that one scan does not find (renamed away and back, a failing `os.Stat`) loses its descriptor — and
-with it the offset 17 —; the next scan, which finds it again, adds it as a new file with offset 0: the file is sent
-again although it only grew. -/
+/-- **`cex_missing_from_one_scan_restarts`** (finding F61; the merge WITHOUT the one-scan grace, `keepsMissed = false` —
+the code as long as `Generated.C17.mergeKeepsMissedOneScan` is `false`, and the other branch once
+proposed-fixes/F61.diff is committed). `mergeDescs` builds its result from the ids of the new scan only. A file that one
+scan does not find (renamed away and back, a failing `os.Stat`) loses its descriptor — and with it the offset 17 —; the
+next scan, which finds it again, adds it as a new file with offset 0: the file is sent again although it only grew. -/
 theorem cex_missing_from_one_scan_restarts :
-    codeMerge [⟨[105, 100], 17, 17⟩] [] = [] ∧
-    codeMerge [] [(⟨[105, 100], 0, 17⟩, none)] = [(⟨[105, 100], 0, 17⟩, false)] := by decide
+    mergeDescs true [⟨[105, 100], 17, 17, false⟩] [] false = [] ∧
+    mergeDescs true [] [(⟨[105, 100], 0, 17, false⟩, none)] false = [(⟨[105, 100], 0, 17, false⟩, false)] := by decide
+
+/-- **`missed_once_keeps_offset`** (the merge WITH the one-scan grace, `keepsMissed = true`: proposed-fixes/F61.diff). A
+descriptor whose id the scan did not find is kept, flagged, with its offset; found again by the next scan — the file
+only grew (hypotheses of `same_id_grown_keeps_offset`) — it is the same descriptor with the same offset and loses the flag;
+not found by the next scan either, it is forgotten. -/
+theorem missed_once_keeps_offset (restats : Bool) (od : Desc) (hm : od.missed = false) :
+    mergeDescs restats [od] [] true = [({ od with missed := true }, true)] ∧
+    mergeDescs restats [{ od with missed := true }] [] true = [] ∧
+    ∀ (nd : Desc) (restat : Option Nat), od.lastSeenSize ≤ nd.lastSeenSize → od.offset ≤ nd.lastSeenSize →
+      (mergeOne restats (some { od with missed := true }) nd restat).2 = true ∧
+      (mergeOne restats (some { od with missed := true }) nd restat).1.offset = od.offset ∧
+      (mergeOne restats (some { od with missed := true }) nd restat).1.missed = false := by
+  refine ⟨by simp [mergeDescs, keptMissed, absent, hm], by simp [mergeDescs, keptMissed, absent], ?_⟩
+  intro nd restat h1 h2
+  have hs : effSize restats { od with missed := true } nd restat = nd.lastSeenSize := by
+    simp only [effSize]
+    have : ¬ nd.lastSeenSize < od.offset := by omega
+    simp [this]
+  simp only [mergeOne, hs]
+  have : od.lastSeenSize ≤ nd.lastSeenSize ∧ od.offset ≤ nd.lastSeenSize := ⟨h1, h2⟩
+  simp [this]
+
+/-- **`code_merge_keeps_new_ids_first`** whichever branch the code is on: the result is one entry per id of the new scan,
+in its order, decided by `mergeOne`, followed by old descriptors the scan did not find — none without the grace; with it
+exactly the unflagged ones, flagged now, offsets untouched. -/
+theorem code_merge_keeps_new_ids_first (old : List Desc) (new : List (Desc × Option Nat)) :
+    codeMerge old new = new.map (fun p => codeMergeOne (lookup old p.1.id) p.1 p.2) ++
+      keptMissed Generated.C17.mergeKeepsMissedOneScan old new ∧
+    ∀ e ∈ keptMissed Generated.C17.mergeKeepsMissedOneScan old new,
+      Generated.C17.mergeKeepsMissedOneScan = true ∧ e.2 = true ∧ e.1.missed = true ∧
+      ∃ od ∈ old, od.missed = false ∧ absent new od = true ∧ e.1 = { od with missed := true } := by
+  refine ⟨rfl, ?_⟩
+  intro e he
+  simp only [keptMissed] at he
+  split at he
+  · rename_i hk
+    simp only [List.mem_map, List.mem_filter, Bool.and_eq_true, Bool.not_eq_true'] at he
+    obtain ⟨od, ⟨hod, ha, hmf⟩, rfl⟩ := he
+    exact ⟨hk, rfl, rfl, od, hod, hmf, ha, rfl⟩
+  · cases he
 
 /-- **`cex_replaced_file_regrown_keeps_offset`** (finding F64) same path and inode, all 26 old bytes shipped, the file
 is replaced in place and has 55 bytes at the next scan: the id and the sizes cannot tell, the old descriptor — offset
 26 — is kept, the first 26 bytes of the new content are never read. (`truncated_file_read_from_beginning` needs the
 size the merge decides with to be below the offset or the size seen last.) -/
 theorem cex_replaced_file_regrown_keeps_offset :
-    codeMergeOne (some ⟨[105, 100], 26, 26⟩) ⟨[105, 100], 0, 55⟩ (some 55) = (⟨[105, 100], 26, 55⟩, true) := by decide
+    codeMergeOne (some ⟨[105, 100], 26, 26, false⟩) ⟨[105, 100], 0, 55, false⟩ (some 55) = (⟨[105, 100], 26, 55, false⟩, true) := by decide
 
 /-- **`cex_stale_size_resend_old`** (finding F17b, fixed by f247e22 — kept as the behaviour of the *old* merge,
 `restats = false`): 17 bytes at the scan's stat, 31 bytes shipped and confirmed by the time of the merge ⇒ the
 scanned descriptor (offset 0) replaces the old one and the file is sent again. With the second stat it is kept. -/
 theorem cex_stale_size_resend_old :
-    mergeOne false (some ⟨[105, 100], 31, 17⟩) ⟨[105, 100], 0, 17⟩ (some 31) = (⟨[105, 100], 0, 17⟩, false) ∧
-    mergeOne true (some ⟨[105, 100], 31, 17⟩) ⟨[105, 100], 0, 17⟩ (some 31) = (⟨[105, 100], 31, 31⟩, true) := by
+    mergeOne false (some ⟨[105, 100], 31, 17, false⟩) ⟨[105, 100], 0, 17, false⟩ (some 31) = (⟨[105, 100], 0, 17, false⟩, false) ∧
+    mergeOne true (some ⟨[105, 100], 31, 17, false⟩) ⟨[105, 100], 0, 17, false⟩ (some 31) = (⟨[105, 100], 31, 31, false⟩, true) := by
   decide
 
 /-! ### non-vacuity: concrete, non-trivial instances -/
@@ -431,9 +473,17 @@ example :
 
 /-- same path and inode, new content at least as long as the old offset: the old offset is kept (the id cannot
 tell; OS behaviour, outside the property's claim) -/
-example : mergeOne true (some ⟨[1], 10, 10⟩) ⟨[1], 0, 25⟩ none = (⟨[1], 10, 25⟩, true) := by decide
+example : mergeOne true (some ⟨[1], 10, 10, false⟩) ⟨[1], 0, 25, false⟩ none = (⟨[1], 10, 25, false⟩, true) := by decide
+
+/-- the one-scan grace (branch `keepsMissed = true`): missing once ⇒ kept and flagged, found again (grown to 20) ⇒ offset
+17 kept, flag cleared; missing twice ⇒ forgotten; a new id next to a missing one: both in the result -/
+example : mergeDescs true [⟨[1], 17, 17, false⟩] [] true = [(⟨[1], 17, 17, true⟩, true)] ∧
+    mergeOne true (some ⟨[1], 17, 17, true⟩) ⟨[1], 0, 20, false⟩ none = (⟨[1], 17, 20, false⟩, true) ∧
+    mergeDescs true [⟨[1], 17, 17, true⟩] [] true = [] ∧
+    mergeDescs true [⟨[1], 17, 17, false⟩] [(⟨[2], 0, 5, false⟩, none)] true =
+      [(⟨[2], 0, 5, false⟩, false), (⟨[1], 17, 17, true⟩, true)] := by decide
 
 /-- if the second stat fails (`none`) the merge falls back to the scanned size -/
-example : mergeOne true (some ⟨[1], 31, 17⟩) ⟨[1], 0, 17⟩ none = (⟨[1], 0, 17⟩, false) := by decide
+example : mergeOne true (some ⟨[1], 31, 17, false⟩) ⟨[1], 0, 17, false⟩ none = (⟨[1], 0, 17, false⟩, false) := by decide
 
 end Logrange.Props.C17
